@@ -15,7 +15,7 @@ Inductive spec : Type :=
 | SSwap (r : nat) | SCSUM (r : nat) | SSubSwap (r i j : nat)
 | SIdentity (rx : list nat) | SACP (rx : list nat) | SDiag (n : nat)
 | SMPRY (n t : nat) | SMPRZ (n t : nat) | SPauliZ (n : nat) | SRSU3 (idx : nat)
-| SCKM | SCKMdg
+| SCKM (fixed : bool) | SCKMdg (fixed : bool)   (* fixed: the gradient of fixes/D14.patch *)
 | SControlled (s : spec) (nc : nat) (cr : ctrl_radixes) (cl : ctrl_levels)
 | SDagger (s : spec)
 | SPower (s : spec) (k : Z)
@@ -51,8 +51,8 @@ Definition base_gate (s : spec) : option gate :=
   | SMPRZ n t => Some (G_MPRZ n t)
   | SPauliZ n => Some (G_PauliZ n)
   | SRSU3 i => if Nat.ltb 7 i then None else Some (G_RSU3 i)
-  | SCKM => Some G_CKM
-  | SCKMdg => Some G_CKMdg
+  | SCKM fx => Some (if fx then G_CKM_fixed else G_CKM)
+  | SCKMdg fx => Some (if fx then G_CKMdg_fixed else G_CKMdg)
   | _ => None
   end.
 
